@@ -16,7 +16,8 @@ from vlib import worldops
 ID = 'C15'
 LEVEL = 'exploration'
 BUDGET = {'quick': 1200, 'thorough': 4000}
-RULE = ('Hypothesis-generated world descriptions: 0-4 processors and 0-5 entities with 0-4 components, types from '
+RULE = ('Component types include two sibling subclasses of desper.Controller, each decorated with ONE further event and defining only that callback; which callbacks a type is owed is written down in the fixtures (DECLARED_EVENTS), never read back from __events__. '
+        'Hypothesis-generated world descriptions: 0-4 processors and 0-5 entities with 0-4 components, types from '
         'an importable fixture module (handler and plain components recording *args/**kwargs), optional ids (str, '
         'negative int, int >= 10**6), args/kwargs from a pool of JSON values (nested containers, numbers, '
         'booleans, null, near-miss strings such as "$", "$x{a}", " ${a}", "a$res{b}", "${}") plus top-level '
@@ -87,8 +88,8 @@ def decode_arg(p):
 
 def decode_item(p):
     """one component / processor: type index + up to 2 args + up to 2 kwargs"""
-    t = p % 5
-    p //= 5
+    t = p % 7
+    p //= 7
     nargs = (0, 1, 1, 2)[p % 4]
     p //= 4
     nkw = (0, 0, 1, 2)[p % 4]
@@ -104,7 +105,7 @@ def decode_item(p):
     return {'type': t, 'args': args, 'kwargs': kwargs}
 
 
-ITEM_SPACE = 5 * 4 * 4 * 300 ** 4
+ITEM_SPACE = 7 * 4 * 4 * 300 ** 4
 
 
 def strategy():
@@ -268,7 +269,7 @@ def _run(case, tmp):
         nonempty = [e for e in expected_entities if e['components']]
         ents = world.entities if not as_file else None
         tag_to_entity = {}
-        for T in (fx.PlainA, fx.PlainB, fx.HandlerA, fx.LoadOnly):
+        for T in fx.QUERY_ROOTS:
             for ent, comp in world.get(T):
                 tag_to_entity[comp.kwargs.get('tag')] = ent
         found = set()
@@ -293,7 +294,7 @@ def _run(case, tmp):
             if ent in found:
                 viol('two_listed_entities_share_one_identifier', entity=repr(ent))
             found.add(ent)
-        total = len({ent for T in (fx.PlainA, fx.PlainB, fx.HandlerA, fx.LoadOnly) for ent, _c in world.get(T)})
+        total = len({ent for T in fx.QUERY_ROOTS for ent, _c in world.get(T)})
         if total != len(nonempty):
             viol('number_of_entities_differs_from_description', got=total, expected=len(nonempty))
         # callbacks
@@ -306,7 +307,7 @@ def _run(case, tmp):
             per[id(comp)].append((kind, args))
         for e in nonempty:
             for x in e['components']:
-                ev = getattr(x['type'], '__events__', None)
+                ev = fx.DECLARED_EVENTS[x['type'].__name__]
                 if ev is None:
                     continue
                 want = []
